@@ -531,6 +531,7 @@ func (w *World) prepareTx(ts *TxSpec, idx int) *TxCtx {
 			tx.Fee = ft.GetFee()
 			tx.Payer = ft.FeePayer()
 		}
+		canonMsgs(tx.Msgs)
 		return tx
 	}
 	accNum, seq := w.accNumSeq(w.DCtx(), signer.Addr)
@@ -564,6 +565,7 @@ func (w *World) prepareTx(ts *TxSpec, idx int) *TxCtx {
 			}()
 		}
 	}
+	canonMsgs(tx.Msgs)
 	w.lastBytes[signer.Idx] = bz
 	return tx
 }
